@@ -185,8 +185,10 @@ DecMagMore ==                          \* binary operators in the thorough tier;
     P(<<1,0,0,0,0,0,0>>, <<0>>) }
 
 Signed(mags) == {[neg |-> s, ds |-> p.ds, sc |-> p.sc] : s \in BOOLEAN, p \in mags}
-DecValuesAll == Signed(DecMagCore \cup DecMagMore)
-DecValues == IF Tier = "thorough" THEN DecValuesAll ELSE Signed(DecMagCore)
+(* Tier = "tiny" is the small space the mutant twins are run on *)
+DecMagTiny == {P(<<0>>, <<0>>), P(<<0>>, <<5>>), P(<<2>>, <<5>>), P(<<0>>, <<7>>), P(<<2,1,4,7,4,8,3,6,4,8>>, <<5>>), P(<<0>>, Rep(9, 20))}
+DecValuesAll == IF Tier = "tiny" THEN Signed(DecMagTiny) ELSE Signed(DecMagCore \cup DecMagMore)
+DecValues == IF Tier = "thorough" THEN DecValuesAll ELSE IF Tier = "tiny" THEN Signed(DecMagTiny) ELSE Signed(DecMagCore)
 (* a small set of decimals used where the other operand varies *)
 DecFew == Signed({P(<<0>>, <<0>>), P(<<0>>, <<5>>), P(<<2>>, <<5>>), P(<<2,1,4,7,4,8,3,6,4,7>>, <<5>>)})
 DecFhir == Signed({P(<<0>>, <<0>>), P(<<1>>, <<5, 0>>), P(<<2,1,4,7,4,8,3,6,4,8>>, <<5>>), P(<<0>>, Rep(0, 16) \o <<5>>)})
@@ -194,15 +196,16 @@ DecFhir == Signed({P(<<0>>, <<0>>), P(<<1>>, <<5, 0>>), P(<<2,1,4,7,4,8,3,6,4,8>
 DOp(v, src, ft) == OpD(v.neg, v.ds, v.sc, src, ft)
 
 (* operand sets *)
-IntEnv == {OpI(n, "env", "") : n \in IntPool}
-IntLit == {OpI(n, "lit", "") : n \in (IF Tier = "thorough" THEN IntPool ELSE IntBoundary) \ {MinInt32}}
+IntEnv == {OpI(n, "env", "") : n \in (IF Tier = "tiny" THEN {0, 1, -1, 2, 7, -7, 46341, 2147483647, MinInt32} ELSE IntPool)}
+IntLit == {OpI(n, "lit", "") : n \in (IF Tier = "thorough" THEN IntPool ELSE IF Tier = "tiny" THEN {} ELSE IntBoundary) \ {MinInt32}}
 DecEnv == {DOp(v, "env", "") : v \in DecValues}
-DecLit == {DOp(v, "lit", "") : v \in {x \in DecValues : x.sc >= 1}}
+DecLit == IF Tier = "tiny" THEN {} ELSE {DOp(v, "lit", "") : v \in {x \in DecValues : x.sc >= 1}}
 DecEnvAll == {DOp(v, "env", "") : v \in DecValuesAll}
-DecLitAll == {DOp(v, "lit", "") : v \in {x \in DecValuesAll : x.sc >= 1}}
+DecLitAll == IF Tier = "tiny" THEN {} ELSE {DOp(v, "lit", "") : v \in {x \in DecValuesAll : x.sc >= 1}}
 DecFewEnv == {DOp(v, "env", "") : v \in DecFew}
 DecFewLit == {DOp(v, "lit", "") : v \in DecFew}
 FhirOps ==
+  IF Tier = "tiny" THEN {} ELSE
   {o \in {OpI(n, s, ft) : n \in IntSmall, s \in {"pb", "res"}, ft \in {"integer", "positiveInt", "unsignedInt"}}
           \cup {DOp(v, s, "decimal") : v \in DecFhir, s \in {"pb", "res"}} : OperandOk(o)}
 Partners == {OpI(n, "env", "") : n \in {0, 7, 2147483647}}
